@@ -37,7 +37,7 @@ def model_checks(tier):
 
 
 def cases(tier, seed, info):
-    n = 120 if tier == 'quick' else 3000
+    n = 120 if tier == 'quick' else 12000
     info['directories'] = n
     return [dict(seed=seed * 65537 + k, k=k, big=(tier == 'thorough')) for k in range(n)]
 
